@@ -386,6 +386,9 @@ func c13(o Opts) error {
 		}
 		res.Distinctly(cfg.String() + strings.Join(kinds, ","))
 	}
+	if err := commitIDsVersusNames(res); err != nil {
+		return err
+	}
 	for i := 0; i < niso; i++ {
 		if err := readerIsolation(res, rng, i); err != nil {
 			return err
